@@ -90,16 +90,14 @@ def hAdd : Handler
           else "ok"
         | _, _, _, _, _, _ => badInput "post"
       | "panic" =>
-        match m with
-        | none =>
+        verdict (match m with | none => "ok" | some _ => mismatch "result" "ok" s!"panic-{why}") <|
           -- the only panics the property tolerates are the documented input guards
           if da ≤ 0 || db ≤ 0 || ((a ≤ 0 || b ≤ 0) && !(a == 0 && b == 0)) then "ok"
           else predfail "C07_no_panic" s!"add-{why}"
-        | some _ => mismatch "result" "ok" s!"panic-{why}"
       | "ovf" =>
         match m with
-        | some (p', _, _, xS) => if big p'.a || big p'.b || big p'.s || big xS then "ok" else mismatch "result" "ok" "ovf"
-        | none => mismatch "result" "panic" "ovf"
+        | some (p', _, _, xS) => if big p'.a || big p'.b || big p'.s || big xS || big da || big db then "ok" else mismatch "result" "ok" "ovf"
+        | none => if big da || big db then "ok" else mismatch "result" "panic" "ovf"
       | _ => badInput "cls"
     | _, _, _, _, _ => badInput "parse"
   | _ => badInput "arity"
@@ -128,10 +126,9 @@ def hRem : Handler
           else "ok"
         | _, _, _, _, _ => badInput "post"
       | "panic" =>
-        match m with
-        | none => if sh ≤ 0 || sh > s then "ok" else predfail "C07_no_panic" s!"rem-{why}"
-        | some _ => mismatch "result" "ok" s!"panic-{why}"
-      | "ovf" => mismatch "result" "-" "ovf"
+        verdict (match m with | none => "ok" | some _ => mismatch "result" "ok" s!"panic-{why}") <|
+          if sh ≤ 0 || sh > s then "ok" else predfail "C07_no_panic" s!"rem-{why}"
+      | "ovf" => if big sh then "ok" else mismatch "result" "-" "ovf"
       | _ => badInput "cls"
     | _, _, _, _ => badInput "parse"
   | _ => badInput "arity"
@@ -192,12 +189,10 @@ def hSwap : Handler
             else swapPreds b a b' a' inp out f (some fv)
         | _, _, _, _, _ => badInput "post"
       | "panic" =>
-        match m with
-        | none =>
+        verdict (match m with | none => "ok" | some _ => mismatch "result" "ok" s!"panic-{why}") <|
           if swapGuard kind a b amt f then "ok"
           else if why == "invariant" then predfail "C07_product_nondecreasing" "invariant-assertion-fired"
           else predfail "C07_no_panic" s!"swap-{why}"
-        | some _ => mismatch "result" "ok" s!"panic-{why}"
       | "ovf" =>
         -- 256-bit / 315-bit overflow panics of sdkmath are outside the model
         let g := P - f
